@@ -814,6 +814,11 @@ func valueIs(pred func(ssa.Value) bool, want int64) assumption {
 func contradicts(as []assumption) func(from, to *ssa.BasicBlock) bool {
 	return func(from, to *ssa.BasicBlock) bool {
 		for _, f := range edgeFactsTo(from, to) {
+			if _, isPhi := f.V.(*ssa.Phi); isPhi {
+				if x, known := boolUnder(f.V, as, 0); known && x != f.Pol {
+					return true
+				}
+			}
 			for _, a := range as {
 				if a.truth != nil {
 					if op, x, y, ok := cmpFact(f); ok {
